@@ -19,9 +19,14 @@ History (JSON-able list of macro steps):
                              while that call is still waiting for it (script without cut-offs); for the model this
                              is Subscribe (disconnected); ConnUp script; Subscribe script
   ["CD", how]                the accessory drops the idle session: how = fin | reset
-  ["EB", bodies, pieces]     the accessory sends the EVENT messages `bodies` as ONE ciphertext stream,
-                             delivered in reads cut at `pieces` (fractions in 0..1 of the stream);
+  ["EB", bodies, pieces, opts]  the accessory sends the EVENT messages `bodies` as ONE ciphertext stream,
+                             delivered in reads cut at `pieces` (ints = absolute byte positions of the ciphertext,
+                             floats in 0..1 = fractions of its length);
                              body = "e" (empty) | "n1"/"n2" (not JSON) | ["b", [[aid,iid,value],..]]
+                             opts (optional): {"fs": accessory frame size (plaintext bytes per encrypted frame,
+                             default 1024), "per_msg": true = every message starts a new frame (sealed separately)}
+                             so a burst is several encrypted frames and a read can hold complete frames followed by
+                             an incomplete one
   script = {aid: reply}; reply = ["o"] (204) | ["s", [[aid,iid,status],..]] (207) |
            ["d", fin|reset|malformed|nonutf8|silent] | ["x", code]  (HTTP 4xx); default ["o"]
 rmodes = {listener: 0 never raises | 1 always | 2 only on the empty event | 3 only on non-empty events}
@@ -69,6 +74,18 @@ def body_bytes(b):
 
 def fires(m, ev):
     return m == 1 or (m == 2 and not ev) or (m == 3 and bool(ev))
+
+
+def frame_layout(bodies, opts):
+    """Total sizes (2-byte length + data + 16-byte tag) of the encrypted frames of an EB burst."""
+    fs = int((opts or {}).get("fs", 1024))
+    lens = [len(b"EVENT/1.0 200 OK\r\nContent-Type: application/hap+json\r\nContent-Length: "
+                + str(len(body_bytes(b))).encode() + b"\r\n\r\n" + body_bytes(b)) for b in bodies]
+    units = lens if (opts or {}).get("per_msg") else [sum(lens)]
+    out = []
+    for u in units:
+        out += [2 + min(fs, u - i) + 16 for i in range(0, u, fs)]
+    return out
 
 
 def run_impl(hist, rmodes, lacts=None):
@@ -234,11 +251,20 @@ def run_impl(hist, rmodes, lacts=None):
                 elif kind == "EB":
                     if live():
                         ep = sessions[-1]
-                        data = b"".join(simacc.event_message(body_bytes(b)) for b in item[1])
-                        ct = ep.seal(data)
+                        opts = item[3] if len(item) > 3 else {}
+                        msgs = [simacc.event_message(body_bytes(b)) for b in item[1]]
+                        old_fs, ep.frame_size = ep.frame_size, int(opts.get("fs", 1024))
+                        try:
+                            ct = b"".join(ep.seal(m) for m in msgs) if opts.get("per_msg") else ep.seal(b"".join(msgs))
+                        finally:
+                            ep.frame_size = old_fs
                         n = len(ct)
-                        cuts = sorted({min(n - 1, max(1, int(f * n))) for f in item[2]}) if n > 1 else []
+                        if n != sum(frame_layout(item[1], opts)):
+                            st["anomalies"].append("frame-layout-mismatch")
+                        cuts = sorted({min(n - 1, max(1, c if isinstance(c, int) else int(c * n))) for c in item[2]}) \
+                            if n > 1 else []
                         st["sent"] = True
+                        st["reads"] = len(cuts) + 1
                         for a, b in zip([0] + cuts, cuts + [n]):
                             ep.tr.peer_send(ct[a:b])
                         await vloop.sleep_ticks(1)
